@@ -28,6 +28,8 @@ type Item struct {
 	ScriptQF string
 	ScriptSliced                []string
 	ScriptInst                  string
+	ScriptGround                string
+	ScriptCases                 []string // the full script under a branch-discriminating atom and under its negation
 	instAs                      []*Term // assumptions of the full script (the instantiated script is generated on demand)
 	instOnce                    sync.Once
 	ScriptLight, ScriptNoLocal string
@@ -203,6 +205,9 @@ func checkMain(args []string) int {
 			}
 			it.Script = script(as, o.Cond, append(g.E.inputTerms(), g.WatchNames...))
 			it.instAs = as
+			if a := splitAtom(o.Cond); a != nil {
+				it.ScriptCases = []string{script(append(append([]*Term{}, as...), a), o.Cond, nil), script(append(append([]*Term{}, as...), not(a)), o.Cond, nil)}
+			}
 			// fallback query: the same goal under the quantifier-free assumptions only (fewer assumptions: an unsat
 			// answer is still a proof; it keeps arithmetic goals out of the solvers' quantifier mode)
 			nq := 0
@@ -244,6 +249,7 @@ func checkMain(args []string) int {
 					}
 					if sc := it.instScript(); sc != "" {
 						os.WriteFile(filepath.Join(*dump, sanitize(it.O.Name)+".inst.smt2"), []byte(sc), 0644)
+						os.WriteFile(filepath.Join(*dump, sanitize(it.O.Name)+".ground.smt2"), []byte(it.ScriptGround), 0644)
 					}
 				}
 			}
@@ -266,6 +272,14 @@ func checkMain(args []string) int {
 			}
 		}
 		if sc := it.instScript(); sc != "" {
+			if it.ScriptGround != "" {
+				r := solvePortfolio(it.ScriptGround, 3, seed)
+				if r.Verdict == "unsat" {
+					r.Solver += " (skolemised goal, ground instances only)"
+					it.Res = r
+					return
+				}
+			}
 			r := solvePortfolio(sc, 3, seed)
 			if r.Verdict == "unsat" {
 				r.Solver += " (skolemised goal, ground instances added)"
@@ -285,6 +299,18 @@ func checkMain(args []string) int {
 			if r.Verdict == "unsat" {
 				it.Res = r
 				return
+			}
+		}
+		if len(it.ScriptCases) == 2 {
+			r1 := solvePortfolio(it.ScriptCases[0], 5, seed)
+			if r1.Verdict == "unsat" {
+				r2 := solvePortfolio(it.ScriptCases[1], 5, seed)
+				if r2.Verdict == "unsat" {
+					r2.Solver += " (case split on a branch condition)"
+					r2.Secs += r1.Secs
+					it.Res = r2
+					return
+				}
 			}
 		}
 		it.Res = solvePortfolio(it.Script, secs, seed)
@@ -309,6 +335,30 @@ func checkMain(args []string) int {
 				r := solvePortfolio(sc, secs, seed+3)
 				if r.Verdict == "unsat" {
 					r.Solver += " (cone of influence)"
+					r.Secs += it.Res.Secs
+					it.Res = r
+					break
+				}
+			}
+		}
+		if it.Res.Verdict == "unknown" && len(it.ScriptCases) == 2 {
+			// case split on a branch condition: both cases must be unsat
+			r1 := solvePortfolio(it.ScriptCases[0], 2*secs, seed)
+			if r1.Verdict == "unsat" {
+				r2 := solvePortfolio(it.ScriptCases[1], 2*secs, seed)
+				if r2.Verdict == "unsat" {
+					r2.Solver += " (case split on a branch condition)"
+					r2.Secs += r1.Secs + it.Res.Secs
+					it.Res = r2
+				}
+			}
+		}
+		if it.Res.Verdict == "unknown" && it.instScript() != "" && it.ScriptGround != "" {
+			// the ground-instance script again with a larger budget (fewer assumptions: unsat is still a proof)
+			for _, b := range []int{2 * secs, 6 * secs} {
+				r := solvePortfolio(it.ScriptGround, b, seed+5)
+				if r.Verdict == "unsat" {
+					r.Solver += " (skolemised goal, ground instances only)"
 					r.Secs += it.Res.Secs
 					it.Res = r
 					break
@@ -485,7 +535,13 @@ func (it *Item) instScript() string {
 		}
 		termMu.Lock()
 		defer termMu.Unlock()
-		it.ScriptInst = instantiatedScript(it.instAs, it.O.Cond)
+		// on the depth-1 cone of influence when that is substantially smaller, else on all assumptions
+		as := it.instAs
+		if sl := sliceAssumptions(as, it.O.Cond, 1); len(sl)*4 <= len(as)*3 {
+			as = sl
+		}
+		it.ScriptInst = instantiatedScript(as, it.O.Cond)
+		it.ScriptGround = groundScript(it.instAs, it.O.Cond)
 	})
 	return it.ScriptInst
 }
